@@ -32,8 +32,8 @@ import (
 
 // ---------------------------------------------------------------- behaviours as printed by TLC
 
-type aKey []int          // abstract key: sequence of symbols
-type aState [][][]int    // per key (in the order of Behaviour.Keys): versions [v, t], oldest first
+type aKey []int       // abstract key: sequence of symbols
+type aState [][][]int // per key (in the order of Behaviour.Keys): versions [v, t], oldest first
 type ver struct{ V, T int }
 
 type resRec struct {
@@ -503,6 +503,12 @@ func (r *run) startBG(h *snapH) {
 	h.stop, h.done = make(chan struct{}), make(chan struct{})
 	go func() {
 		defer close(h.done)
+		defer func() {
+			if x := recover(); x != nil {
+				msg := fmt.Sprintf("panic in a concurrent reader: %v", x)
+				h.bgErr.Store(&msg)
+			}
+		}()
 		for {
 			select {
 			case <-h.stop:
